@@ -368,6 +368,16 @@ func cmdCheck(args []string) int {
 		}
 		cr.Extra["bounded"] = bl
 	}
+	if *only == "" && *tier == "thorough" && *repo == "/repo" && os.Getenv("SF_NO_SELFTEST") == "" {
+		sl, c, n := selftestFor(prop)
+		for _, l := range sl {
+			if strings.HasSuffix(l, "MISSED") || strings.Contains(l, "stale") {
+				fmt.Println("NOTE: selftest " + l)
+			}
+		}
+		fmt.Printf("selftest: %d of %d must-fail mutants of %s caught\n", c, n, prop)
+		cr.Extra["selftest"] = map[string]interface{}{"caught": c, "total": n, "mutants": sl}
+	}
 	cr.Wall = time.Since(start).Seconds()
 	if !*noEvidence && *only == "" {
 		if err := writeEvidence(filepath.Join(verifDir, "evidence", prop+".json"), cr, kfObls, seed); err != nil {
